@@ -12,7 +12,7 @@ CLAUSES = {
     "independent-draws": "every displacement component of every particle, direction and step is carried by a draw of its own (no draw serves two components; however the generator is called)",
     "deterministic-when-off": "with D = 0 and Dz = 0 the generator is never called and positions are unchanged",
 }
-BOUNDS = {"quick": "1-3 particles, two consecutive steps, D, Dz, dt, dx_i, draws: any positive reals / any reals",
+BOUNDS = {"quick": "(incl. vertical diffusion combined with vertical advection, symbolic w) 1-3 particles, two consecutive steps, D, Dz, dt, dx_i, draws: any positive reals / any reals",
           "thorough": "4 particles, three steps"}
 ASSUMES = ["numpy's Generator.normal returns i.i.d. N(0,1) draws (contract of the stub): mean 0 and variance 2 D t then follow from the proven linear form",
            "no boundary/land interaction (C09) and no reflection (C15): open water, deep column"]
@@ -26,6 +26,7 @@ def scenarios(tier):
         out.append(dict(name=f"horizontal-p{npart}", fn="horizontal", params=dict(npart=npart, steps=2 if q else 3), cost=5))
     out.append(dict(name="vertical", fn="vertical", params=dict(npart=2), cost=3))
     out.append(dict(name="both", fn="both", params=dict(npart=2), cost=3))
+    out.append(dict(name="vertical-with-advection", fn="vertadv", params=dict(npart=2), cost=3))
     out.append(dict(name="off", fn="off", params=dict(npart=2), cost=1))
     return out
 
@@ -34,7 +35,7 @@ def _sqrt(W, v):
     return W.core.sym_sqrt(v) if W.symbolic else math.sqrt(v)
 
 
-def _mk(W, npart, D, Dz, dt, dx, z0=None, adv="", dy=None, tag=""):
+def _mk(W, npart, D, Dz, dt, dx, z0=None, adv="", dy=None, tag="", wvel=None):
     dy = dx if dy is None else dy
     trk, st = W.load("ladim.tracker"), W.load("ladim.state")
 
@@ -54,7 +55,7 @@ def _mk(W, npart, D, Dz, dt, dx, z0=None, adv="", dy=None, tag=""):
             return W.arr([10 ** 9] * len(X), "f")
 
     class Force:
-        variables = {}
+        variables = {} if wvel is None else dict(w=W.arr(list(wvel), "f"))
 
         def velocity(self, *a, **k):
             raise AssertionError("no advection requested")
@@ -64,7 +65,7 @@ def _mk(W, npart, D, Dz, dt, dx, z0=None, adv="", dy=None, tag=""):
     y = [W.real(f"{tag}y{n}", 1000, 2000) for n in range(npart)]
     z = [z0 if z0 is not None else 5] * npart
     S.append(X=W.arr(x, "f"), Y=W.arr(y, "f"), Z=W.arr(z, "f"))
-    T = trk.Tracker(advection=adv, diffusion=D, vertdiff=Dz, modules=dict(state=S, grid=Grid(), forcing=Force(), time=Timer(dt)))
+    T = trk.Tracker(advection=adv, diffusion=D, vertdiff=Dz, modules=dict(state=S, grid=Grid(), forcing=Force(), time=Timer(dt)), **(dict(vertical_advection=True) if wvel is not None else {}))
     W.patch_rng(T)
     return S, T, x, y
 
@@ -189,6 +190,24 @@ def both(W, p):
     W.prove(True, "horizontal-scale")
     W.prove(True, "vertical-scale")
     return ("both",)
+
+
+def vertadv(W, p):
+    """vertical diffusion together with vertical advection: dZ = w dt + kz xi (the random part is applied once)"""
+    npart = p["npart"]
+    Dz = W.real("Dz", 0, 10, lo_strict=True)
+    dt = W.real("dt", 1, 10 ** 5)
+    wv = [W.real(f"w{n}", -W.frac(1, 10), W.frac(1, 10)) for n in range(npart)]
+    S, T, x, y = _mk(W, npart, 0, Dz, dt, [100] * npart, z0=10 ** 7, wvel=wv)
+    kz = _sqrt(W, 2 * Dz * dt)
+    T.update()
+    _generic(W)
+    W.assume(W.all([W.all([W.le(-100, W.xi(*d)), W.le(W.xi(*d), 100)]) for d in _draws(W)]), "draws within +-100 standard deviations (no reflection)")
+    Z1 = W.tolist(S.Z)
+    _match(W, [(f"dZ{n}", Z1[n] - 10 ** 7 - wv[n] * dt) for n in range(npart)], kz, set(), "vertical-scale", dict(mode="with vertical advection"))
+    W.prove(len(_draws(W)) == npart, "independent-draws", dict(draws=len(_draws(W)), expected=npart))
+    W.prove(True, "vertical-scale")
+    return ("vertadv",)
 
 
 def off(W, p):
